@@ -25,6 +25,12 @@ RULE = ('matrix = resource type (workflow, workbook, action, environment, '
         'resource exists and belongs to another project; enumerated '
         'completely')
 
+# project ids have keystone's shape: the `project_id` query parameter of the
+# list controllers only accepts uuid-like values
+PA = 'aaaaaaaa-0000-4000-8000-00000000000a'
+PB = 'bbbbbbbb-0000-4000-8000-00000000000b'
+PC = 'cccccccc-0000-4000-8000-00000000000c'
+
 PUBLIC_TYPES = ('workflow', 'workbook', 'action', 'environment',
                 'code_source', 'dynamic_action', 'cron_trigger',
                 'event_trigger')
@@ -218,7 +224,7 @@ def rest_ops(f):
         ('member', 'list', 'GET', '/v2/workflows/%s/members' % wf, None, None,
          'owner_only'),
         ('member', 'self_add', 'POST', '/v2/workflows/%s/members' % wf,
-         {'member_id': 'projB'}, None, 'owner_only'),
+         {'member_id': PB}, None, 'owner_only'),
     ]
     # every collection once more with all_projects=true
     for (rtype, op, http, url, body, text, kind) in list(ops):
@@ -228,9 +234,9 @@ def rest_ops(f):
             # ... and filtered by the owner's project id (with and without a
             # field projection): a filter is not an authorisation
             ops.append((rtype, 'list_owner_project', 'GET',
-                        url + '?project_id=projA', None, None, 'list'))
+                        url + '?project_id=' + PA, None, None, 'list'))
             ops.append((rtype, 'list_owner_project_fields', 'GET',
-                        url + '?project_id=projA&fields=id,name', None, None,
+                        url + '?project_id=' + PA + '&fields=id,name', None, None,
                         'list'))
     return ops
 
@@ -330,12 +336,12 @@ def run_block(scope, relation, st):
     """One (scope, relation) block: fresh fixtures per mutating operation."""
     from mv import sim, rest
     viol = []
-    A = rest.make_ctx('projA')
-    B = rest.make_ctx('projB', admin=(relation == 'admin'))
+    A = rest.make_ctx(PA)
+    B = rest.make_ctx(PB, admin=(relation == 'admin'))
     if relation == 'bystander':
         # projB is an accepted member of A's workflow; the actor is a third
         # project that was never offered anything
-        B = rest.make_ctx('projC')
+        B = rest.make_ctx(PC)
     if relation in ('collision', 'collision_b_first'):
         return run_collision(scope, st, A, B, relation)
 
@@ -348,7 +354,7 @@ def run_block(scope, relation, st):
                 with sim.db_api.transaction():
                     sim.db_api.create_resource_member({
                         'resource_id': f['workflow']['id'],
-                        'resource_type': 'workflow', 'member_id': 'projB',
+                        'resource_type': 'workflow', 'member_id': PB,
                         'status': 'accepted' if relation == 'bystander'
                         else relation})
             finally:
@@ -584,8 +590,8 @@ def run_collision(scope, st, A, B, relation='collision'):
         before = rest.db_dump()
         status, data = rest.request(B, http, url, body=body, text=text)
         after = rest.db_dump()
-        a_changed = rest.dump_diff(_owned(before, 'projA'),
-                                   _owned(after, 'projA'))
+        a_changed = rest.dump_diff(_owned(before, PA),
+                                   _owned(after, PA))
         changed = rest.dump_diff(before, after)
         dirty = bool(changed)
         case = {'layer': 'rest', 'type': rtype, 'op': op, 'scope': scope,
@@ -599,7 +605,7 @@ def run_collision(scope, st, A, B, relation='collision'):
                          'detail': dict(case, diff=a_changed)})
         if kind == 'read' and scope == 'private' and status == 200 and \
                 isinstance(data, dict):
-            if data.get('project_id') not in (None, 'projB'):
+            if data.get('project_id') not in (None, PB):
                 viol.append({'kind': 'foreign-private-resource-readable',
                              'detail': dict(case,
                                             project=data.get('project_id'))})
@@ -608,7 +614,7 @@ def run_collision(scope, st, A, B, relation='collision'):
                 if isinstance(v, list):
                     for it in v:
                         if isinstance(it, dict) and it.get(
-                                'project_id') == 'projA':
+                                'project_id') == PA:
                             viol.append({
                                 'kind': 'foreign-private-resource-listed',
                                 'detail': case})
@@ -633,8 +639,8 @@ def run_collision(scope, st, A, B, relation='collision'):
             sim.auth_context.set_ctx(sim.CTX)
             sim._cleanup_session()
         after = rest.db_dump()
-        a_changed = rest.dump_diff(_owned(before, 'projA'),
-                                   _owned(after, 'projA'))
+        a_changed = rest.dump_diff(_owned(before, PA),
+                                   _owned(after, PA))
         dirty = bool(rest.dump_diff(before, after))
         case = {'layer': 'db_api', 'type': rtype, 'fn': fn, 'scope': scope,
                 'relation': relation, 'error': err}
@@ -647,7 +653,7 @@ def run_collision(scope, st, A, B, relation='collision'):
             viol.append({'kind': 'own-named-operation-changed-foreign-rows',
                          'detail': dict(case, diff=a_changed)})
         if kind in ('read', 'load') and scope == 'private' and \
-                proj not in (None, 'projB'):
+                proj not in (None, PB):
             viol.append({'kind': 'db-api-returned-foreign-private-row',
                          'detail': dict(case, project=proj)})
     return viol
